@@ -397,6 +397,22 @@ class List(list, base.Symbolic, pg_typing.CustomTyping):
       if isinstance(item, base.TopologyAware):
         item.sym_setpath(utils.KeyPath(idx, new_path))
 
+  def _set_item_on_apply(self, key: int, value: Any) -> None:
+    """Sets an item when a value spec converts the elements.
+
+    Called by `pg.typing.List.apply`: this is not a write of the user through
+    an accessor, so `accessor_writable` does not apply, but a sealed list is
+    not converted in place.
+
+    Args:
+      key: Index of the item.
+      value: Value of the item.
+    """
+    if base.treats_as_sealed(self):
+      raise base.WritePermissionError(
+          self._error_message('Cannot modify item of a sealed List.'))
+    self._set_item_without_permission_check(key, value)
+
   def _set_item_without_permission_check(  # pytype: disable=signature-mismatch  # overriding-parameter-type-checks
       self, key: int, value: Any) -> Optional[base.FieldUpdate]:
     """Set or add an item without permission check."""
